@@ -505,7 +505,8 @@ def opHIST (op : String) (args obs : List String) : Option DecOut :=
   let (main, chg, inchg) := splitHist obs
   let f07 := (if chg == 0 then [] else [s!"C07 {chg} previously returned value(s) changed",
                 s!"C03 {chg} message(s) / stream(s) built earlier no longer carry their entries after a later call"]) ++
-             (if inchg == 0 then [] else [s!"C07 {inchg} caller-supplied argument(s) modified"])
+             (if inchg == 0 then [] else [s!"C07 {inchg} caller-supplied argument(s) modified",
+                s!"C03 the library wrote into {inchg} argument(s) the caller handed over (entries / bytes): the message is no longer built from exactly what the caller gave"])
   let mk (corr : Option String) (fails : List String) (br : String) : Option DecOut :=
     some { corr := corr, fails := fails ++ f07, branch := s!"hist.{op}.{br}" }
   match op, args with
@@ -529,7 +530,8 @@ def opHIST (op : String) (args obs : List String) : Option DecOut :=
                 | some mb => if mb == s && o == s!"O({sizeOpt},-,-)" then none else some s!"model str={toHex mb} opt=O({sizeOpt},-,-)"
                 | none => some "model=err"
               mk corr ((if streamIsEntries es s then [] else ["C03 event stream is not the concatenation of the entries", "C01 packed message does not carry exactly the given entries",
-                        "C02 the PackedForward bin is not the concatenation of the entries' msgpack encodings"]) ++
+                        "C02 the PackedForward bin is not the concatenation of the entries' msgpack encodings",
+                        "C19 the entries of the packed stream do not carry the instants they were given (the stream is not the concatenation of the entries' encodings)"]) ++
                        (if o == s!"O({sizeOpt},-,-)" then [] else ["C03 size option is not the number of entries"])) s!"{es.length}"
             | _, _ => none
           else
@@ -539,7 +541,8 @@ def opHIST (op : String) (args obs : List String) : Option DecOut :=
                 | some mb => if mb == p then none else some s!"model payload={toHex mb}"
                 | none => some "model=err"
               mk corr ((if rest == "0" && comp == "true" then [] else ["C03 not exactly one complete gzip member", "C01 the compressed message cannot be read back: its stream is not a gzip stream"]) ++
-                       (if streamIsEntries es p then [] else ["C03 decompressed stream is not the concatenation of the entries", "C01 compressed message does not carry exactly the given entries"]) ++
+                       (if streamIsEntries es p then [] else ["C03 decompressed stream is not the concatenation of the entries", "C01 compressed message does not carry exactly the given entries",
+                          "C19 the entries of the compressed stream do not carry the instants they were given"]) ++
                        (if o == s!"O({sizeOpt},-,677a6970)" then [] else ["C03 options are not size + compressed=gzip"])) s!"{es.length}"
             | _, _, _, _ => none
     | _ => none
